@@ -519,7 +519,44 @@ func reportFirstDiff(w *World, r *Report, fns map[string]*ssa.Function) {
 						il := fa.Lin(idxs[0])
 						b1 := fa.BoundsAt(lz.Block(), il.Sub(la))
 						b2 := fa.BoundsAt(lz.Block(), il.Sub(lb))
-						if !(b1.HasHi && b1.Hi <= 0 && b2.HasHi && b2.Hi <= 0) {
+						okBoth := b1.HasHi && b1.Hi <= 0 && b2.HasHi && b2.Hi <= 0
+						if !okBoth {
+							// one guard i < n with n = min(len(a), len(b)) computed beforehand
+							for _, cd := range fa.Conds(lz.Block()) {
+								D, op, ok := fa.CondRel(cd)
+								if !ok || (op != opLT && op != opLE) {
+									continue
+								}
+								nl := il.Sub(D) // D = i - n  =>  n = i - D
+								if len(nl.T) != 1 || nl.K != 0 {
+									continue
+								}
+								for atom, cf := range nl.T {
+									np, isPhi := fa.AtomValue(atom).(*ssa.Phi)
+									if !isPhi || cf != 1 || isLoopHeaderPhi(np) {
+										continue
+									}
+									okN := true
+									for _, lf := range fa.leavesOf(np, np.Block(), 0) {
+										ba := fa.boundsFrom(lf.Conds, fa.Lin(lf.V).Sub(la))
+										bb := fa.boundsFrom(lf.Conds, fa.Lin(lf.V).Sub(lb))
+										if fa.Lin(lf.V).Eq(la) {
+											ba = Bounds{Hi: 0, HasHi: true}
+										}
+										if fa.Lin(lf.V).Eq(lb) {
+											bb = Bounds{Hi: 0, HasHi: true}
+										}
+										if !(ba.HasHi && ba.Hi <= 0 && bb.HasHi && bb.Hi <= 0) {
+											okN = false
+										}
+									}
+									if okN {
+										okBoth = true
+									}
+								}
+							}
+						}
+						if !okBoth {
 							bad = "suffixes a[i:], b[i:] are taken without i <= len(a) && i <= len(b): a chunk offset past the shorter key panics"
 						}
 					}
@@ -560,6 +597,17 @@ func reportFirstDiff(w *World, r *Report, fns map[string]*ssa.Function) {
 							}
 							if len(E.T) == 1 && (op == opLT || op == opLE) && E.K == 0 {
 								for atom, coef := range E.T {
+									if p, ok := fa.AtomValue(atom).(*ssa.Phi); ok && coef == -8 {
+										// minl = 8 * min(len(a), len(b)) with the minimum taken in bytes
+										okm := len(p.Edges) == 2
+										for _, e := range p.Edges {
+											el := fa.Lin(e)
+											if !el.Eq(la) && !el.Eq(lb) {
+												okm = false
+											}
+										}
+										okClip = okm
+									}
 									if p, ok := fa.AtomValue(atom).(*ssa.Phi); ok && coef == -1 {
 										// minl = min(8la, 8lb)
 										okm := len(p.Edges) == 2
@@ -592,6 +640,35 @@ func reportFirstDiff(w *World, r *Report, fns map[string]*ssa.Function) {
 							bad = "8*len(b) is returned on an edge where 8*len(a) may be smaller"
 						}
 					default:
+						// 8*n with n = min(len(a), len(b)) taken first (in bytes): every alternative of n on its own edge
+						okMin := false
+						if len(L.T) == 1 && L.K == 0 {
+							for atom, coef := range L.T {
+								np, isPhi := fa.AtomValue(atom).(*ssa.Phi)
+								if !isPhi || coef != 8 || isLoopHeaderPhi(np) {
+									continue
+								}
+								okMin = true
+								for _, nl := range fa.leavesOf(np, np.Block(), 0) {
+									NL := fa.Lin(nl.V)
+									switch {
+									case NL.Eq(la):
+										if bd := fa.boundsFrom(nl.Conds, la.Sub(lb)); !(bd.HasHi && bd.Hi <= 0) {
+											okMin = false
+										}
+									case NL.Eq(lb):
+										if bd := fa.boundsFrom(nl.Conds, la.Sub(lb)); !(bd.HasLo && bd.Lo >= 0) {
+											okMin = false
+										}
+									default:
+										okMin = false
+									}
+								}
+							}
+						}
+						if okMin {
+							break
+						}
 						bad = "returned value " + L.String() + " is neither a difference position nor 8*min(len)"
 					}
 				}
